@@ -112,7 +112,14 @@ def run(tier, replay):
     for t in tv["l1fail"]:
         ln = t[2] - 1
         r = recs[ln]
-        for sig, what in aspects(r["o1"], r["o2"], order):
+        found = []
+        if len(set(r["o1"].values())) > 1 or r["o1"] != r["o2"]:
+            found += aspects(r["o1"], r["o2"], order)
+        if len(set(r["fin"].values())) > 1:
+            found.append(("after-commit-mixed " + " ".join(f"{p}={r['fin'][p]}" for p in PROBES),
+                          "a reader that began AFTER the writer's commit returned sees " +
+                          " ".join(f"{p}={r['fin'][p]}" for p in PROBES) + ": settings and data of different versions"))
+        for sig, what in found:
             R.violation(sig, f"schedule {r['s']}: {what}; the reader saw " +
                         " ".join(f"{p}={r['o1'][p]}" for p in PROBES) + f" (raw {r['raw1']})",
                         [json.dumps({"s": r["s"]})])
